@@ -156,12 +156,27 @@ def heapPop (h : Array (FaceId2 K)) : Option (FaceId2 K × Array (FaceId2 K)) :=
 
 /-! ### `EPA::closest_points` -/
 
+/-- which `return Some(..)` of `EPA::closest_points` produced the result (ghost information: the Rust function does not
+report it; the driver does not print it) -/
+inductive Epa2Exit where
+  /-- `max_dist - curr_dist < _eps_tol`: the face being expanded -/
+  | boundsMet
+  /-- the "algorithm is stuck" disjunct: `best_face` -/
+  | stuck
+  /-- `dist < curr_dist` on a new face ("numerical errors") -/
+  | numerical
+  /-- heap exhausted or `niter > 100`: `best_face` -/
+  | finished
+  /-- 0-dimensional start simplex -/
+  | vertexVertex
+deriving DecidableEq, Repr
+
 /-- result of `EPA::closest_points`; `.panic` = an indexing panic, `.fuel` = model fuel exhausted (both unreachable) -/
 inductive Epa2Result (K : Type) where
   | panic
   | fuel
   | none
-  | some (p1 p2 n : V2 K)
+  | some (p1 p2 n : V2 K) (why : Epa2Exit)
 
 /-- the loop state of `EPA::closest_points` -/
 structure Epa2State (K : Type) where
@@ -174,15 +189,15 @@ structure Epa2State (K : Type) where
   oldDist : K
 
 /-- `Some((cpts.0, cpts.1, face.normal))` -/
-def epa2Return (f : Face2 K) (vs : Array (CSOPoint2 K)) : Epa2Result K :=
+def epa2Return (f : Face2 K) (vs : Array (CSOPoint2 K)) (why : Epa2Exit) : Epa2Result K :=
   match f.closestPoints vs with
-  | some (p1, p2) => .some p1 p2 f.normal
+  | some (p1, p2) => .some p1 p2 f.normal why
   | none => .panic
 
 /-- the code after the loop: `best_face = &self.faces[best_face_id.id]` -/
 def epa2Finish (st : Epa2State K) : Epa2Result K :=
   match st.faces[st.best.id]? with
-  | some f => epa2Return f st.vertices
+  | some f => epa2Return f st.vertices .finished
   | none => .panic
 
 /-- one turn of `for f in new_faces.iter()`: `.inl` = early return -/
@@ -190,7 +205,7 @@ def epa2AddFace (vs : Array (CSOPoint2 K)) (curr : K) (faces : Array (Face2 K)) 
     (f : Face2 K × Bool) : Sum (Epa2Result K) (Array (Face2 K) × Array (FaceId2 K)) :=
   if f.2 then
     let dist := f.1.normal.dot f.1.proj
-    if dist < curr then .inl (epa2Return f.1 vs)
+    if dist < curr then .inl (epa2Return f.1 vs .numerical)
     else if !f.1.deleted then
       match FaceId2.new? faces.size (-dist) with
       | some fid => .inr (faces.push f.1, heapPush heap fid)
@@ -215,9 +230,9 @@ def epa2Step (supp1 supp2 : V2 K → V2 K) (st : Epa2State K) : Sum (Epa2Result 
       let maxDist := if cand < st.maxDist then cand else st.maxDist
       let curr := -fid.negDist
       if maxDist - curr < epaEpsTol || (nabs (curr - st.oldDist) < epsDefault && cand < maxDist) then
-        if maxDist - curr < epaEpsTol then .inl (epa2Return face vs)
+        if maxDist - curr < epaEpsTol then .inl (epa2Return face vs .boundsMet)
         else match st.faces[best.id]? with
-          | some bf => .inl (epa2Return bf vs)
+          | some bf => .inl (epa2Return bf vs .stuck)
           | none => .inl .panic
       else
         match Face2.new vs face.pts0 sid, Face2.new vs sid face.pts1 with
@@ -276,7 +291,7 @@ def epa2ClosestPoints (supp1 supp2 : V2 K → V2 K) (fuel : Nat) (simplex : List
     let n : V2 K := ⟨0, 1⟩
     let n := epa2ConeLoop supp1 v0.orig1 false 100 n
     let n := epa2ConeLoop supp2 v0.orig2 true 100 n
-    .some V2.zero V2.zero n
+    .some V2.zero V2.zero n .vertexVertex
   | [v0, v1] =>
     let vs : Array (CSOPoint2 K) := #[v0, v1]
     match Face2.newWithProj vs V2.zero 1 0 0 1, Face2.newWithProj vs V2.zero 1 0 1 0 with
